@@ -120,7 +120,13 @@ def check_kinds(ctx: Ctx) -> None:
                     sv = single(steps)
                     facts2 = {"step is None": False, "isinstance(step, ndarray)": bool(sv and sv[0] == "arr")}
                     _analyse(ctx, rel, cls, m, facts2, init2, label + f", step from the generator = {sv}")
-    ctx.floor("16.1-kinds", 30)
+    # centred differences: the same generator contract (its quotient divides by the distance of the two points, so
+    # only the generator consumes the steps)
+    for sname, sfacts, stag in CASES:
+        for dname, dfacts in DS_CASES:
+            init = {"input_values": arr("C"), "input_indices": one(("idxarr", ("P",), "C")), "step": stag}
+            _analyse(ctx, CD, "CenteredDifferences", "_generate_perturbations", {**sfacts, **dfacts}, init, ", ".join((sname, dname)))
+    ctx.floor("16.1-kinds", 40)
 
 
 def _quotient_shape(e: ast.AST):
@@ -476,6 +482,7 @@ def run(ctx: Ctx) -> None:
 
 # ---------------------------------------------------------------------------
 WITNESSES = [
+    {"name": "centred-steps-not-restricted", "file": CD, "old": "        if isinstance(step, ndarray):\n            # One step per input component: keep the ones of the differentiated ones.\n            step = step[input_indices]\n\n        if self._design_space is None:\n            input_perturbations[input_indices, range(n_indices)] += step\n            input_perturbations[input_indices, range(n_indices, 2 * n_indices)] -= step", "new": "        if self._design_space is None:\n            input_perturbations[input_indices, range(n_indices)] += step\n            input_perturbations[input_indices, range(n_indices, 2 * n_indices)] -= step", "expect": "16.1"},
     {"name": "optimal-step-called-after-the-context", "file": DA, "old": "        with self.__set_zero_cache_tol():\n            steps_opt, errors = self.approximator.compute_optimal_step(\n                x_vect, numerical_error=numerical_error\n            )\n", "new": "        with self.__set_zero_cache_tol():\n            compute_opt_step = self.approximator.compute_optimal_step\n\n        steps_opt, errors = compute_opt_step(x_vect, numerical_error=numerical_error)\n", "expect": "16.6"},
     {"name": "centred-upper-bounds-from-lower", "file": CD, "old": "            upper_bounds = normalize_vect(upper_bounds)", "new": "            upper_bounds = normalize_vect(lower_bounds)", "expect": "16.4"},
     {"name": "indices-offset-by-selected-count", "file": DA, "old": "            variable_position += variable_size\n", "new": "            variable_position += len(indices_sequence[-1])\n", "expect": "16.5"},
